@@ -1420,10 +1420,11 @@ impl TypeChecker {
         })
     }
 
-    /// Unify two types that appear as arguments of the same type
+    /// Unify two types that appear as arguments of the same type or as the
+    /// types of the same field of two record types
     ///
     /// Arguments have to be equal: `Option[!]` and `Option[i32]` are
-    /// different types. So, unlike at the top level, the never type only
+    /// different types. The same holds for the types of record fields. So, unlike at the top level, the never type only
     /// unifies with itself or with a type that is still unknown.
     fn unify_argument(&mut self, a: &Type, b: &Type) -> Option<Type> {
         let resolved_a = self.resolve_type(a);
@@ -1491,7 +1492,7 @@ impl TypeChecker {
             let idx =
                 b_fields.iter().position(|(n, _)| n.node == name.node)?;
             let (_, b_ty) = b_fields.remove(idx);
-            new_fields.push((name.clone(), self.unify_inner(a_ty, &b_ty)?))
+            new_fields.push((name.clone(), self.unify_argument(a_ty, &b_ty)?))
         }
 
         Some(new_fields)
